@@ -4,12 +4,14 @@
    20 conversion of a well-formed dense dataset failed / crashed
    21 C13_rows      first dimensions of spikes.* / clusters.* / templates.* / channels.* (+ number of uuids)
    22 C13_units     spikes.samples = the source samples, spikes.times[i] = samples[i] / rate (one binary64 division)
-   23 C13_label     label inserted before the extension of exactly the spikes/clusters/templates/channels files
+   23 C13_label     label inserted before the extension of exactly the spikes/clusters/templates/channels files: every
+                    such observed name is <un-labelled table name with .<label> before its extension>
    24 C13_uuids     one identifier per cluster, pairwise distinct
    25 C13_roundtrip loading the output gives the same times, samples, clusters, templates, positions, and channel map
                     (single probe; with several probes: the re-based rawInd)
    26 C13_guard     same directory (any spelling / symlink) must be refused and nothing written
-   27 C13_frame     source files byte-identical, only temp_wh.dat deleted, only the three subset files added (iff raw data)
+   27 C13_frame     source files byte-identical, only temp_wh.dat deleted, only the three subset files added (iff raw data);
+                    when the source directory itself was named as the target: nothing changed, deleted or added at all
    28 C13_dtypes    spikes.clusters / spikes.templates stored as uint16 with unchanged values *)
 From Coq Require Import ZArith List Bool String Ascii.
 From PV Require Export Base.Tok Base.TokArith Base.FloatTok C04.Model C13.Model C13.Spec.
@@ -33,7 +35,13 @@ Record obsrec := mkobs {
   ob_rl : reloaded                 (* the TemplateModel of the output directory *)
 }.
 Inductive input := InConvert (i : inp).
-Inductive observed := ObsConverted (o : obsrec) | ObsRefused (untouched : bool) | ObsCrash.
+Inductive observed :=
+| ObsConverted (o : obsrec)
+| ObsRefused (untouched : bool)                            (* IOError "cannot be the same"; source + its parent untouched? *)
+| ObsNotRefused (changed deleted new_names : list string)  (* the source directory was the target and convert() did NOT
+                                                              refuse (it completed, or crashed later): what happened to
+                                                              the pre-existing source files / which entries appeared *)
+| ObsCrash.
 Record case := { cid : Z; cin : input; cobs : observed }.
 
 Definition flag (code : Z) (ok : bool) : list Z := if ok then [] else [code].
@@ -61,21 +69,39 @@ Definition single_probe (m : loaded) : bool :=
   match zunique (ids_of (l_probes m)) with [_] => true | _ => false end.
 
 (* the stated regime: a loaded, dense, KS-named source directory with amplitudes, consistent shapes, no axis
-   of length 1 (phylib squeezes every array), ids below 65536, raw indices that do not wrap *)
-Definition in_regime (i : inp) (m : loaded) : bool :=
-  forallb (fun p => Nat.leb (n_matches p (i_src i)) 1) all_patterns &&
-  forallb (fun kv => arr_wf (snd kv)) (i_src i) && str_nodup (names (i_src i)) && str_nodup (names (i_others i)) &&
+   of length 1 (phylib squeezes every array), ids below 65536, raw indices that do not wrap.  A function of the
+   abstract INPUT alone (src = the source files as TemplateModel leaves them, m = the loader model applied to them). *)
+Definition in_regime (i : inp) (src : files) (m : loaded) : bool :=
+  forallb (fun p => Nat.leb (n_matches p src) 1) all_patterns &&
+  forallb (fun kv => arr_wf (snd kv)) src && str_nodup (names src) && str_nodup (names (i_others i)) &&
   match l_created m with [] => true | _ => false end &&
-  has "spike_times.npy" (i_src i) && has "spike_clusters.npy" (i_src i) && has "spike_templates.npy" (i_src i) &&
+  has "spike_times.npy" src && has "spike_clusters.npy" src && has "spike_templates.npy" src &&
   negb (is_none (l_amps m)) && is_none (l_tcols m) &&
-  negb (has "clusters.channels.npy" (i_src i)) && negb (has "clusters.peakToTrough.npy" (i_src i)) &&
-  src_wf m (i_src i) && ids_ok (l_sclusters m) && ids_ok (l_stemplates m) &&
+  negb (has "clusters.channels.npy" src) && negb (has "clusters.peakToTrough.npy" src) &&
+  src_wf m src && ids_ok (l_sclusters m) && ids_ok (l_stemplates m) &&
   int_toks (l_cmap m) && int_toks (l_probes m) &&
   all_nonneg (raw_ind (ids_of (l_probes m)) (ids_of (l_cmap m))) &&
-  (negb (i_has_raw i) || negb (existsb (fun n => has n (i_src i)) SUBSET)) &&
+  (negb (i_has_raw i) || negb (existsb (fun n => has n src) SUBSET)) &&
   (2 <=? n_spikes m) && (2 <=? n_templates m) && (2 <=? n_channels m) && (2 <=? n_wsamples m) &&
   forallb (fun kv => negb (ends_with ".npy" (fst kv))) (i_others i) &&
-  forallb (fun kv => ends_with ".npy" (fst kv)) (i_src i).
+  forallb (fun kv => ends_with ".npy" (fst kv)) src.
+
+(* The source directory as TemplateModel leaves it.  The harness normally records the directory AFTER the source was
+   loaded (then the load creates nothing more); when the implementation crashed before that snapshot could be taken
+   the static file list is completed with what the loader model says the load creates (PV.C04: C04_frame). *)
+Definition loadc (i : inp) (inv : arr -> arr) (src : files) : res loaded :=
+  load fdiv_tok fmul_tok round_half_even_tok inv src (i_rate i) (i_ncd i).
+Definition norm_src (i : inp) : option (files * loaded) :=
+  match loadc i (fun a => a) (i_src i) with
+  | Err _ => None
+  | Ok m0 =>
+      match l_created m0 with
+      | [] => Some (i_src i, m0)
+      | cr => let src := i_src i ++ cr in
+              if negb (forallb (fun p => Nat.leb (n_matches p src) 1) all_patterns) then None else
+              match loadc i (fun a => a) src with Ok m => Some (src, m) | Err _ => None end
+      end
+  end.
 
 Definition spec_rows (m : loaded) (L : string) (o : obsrec) : bool :=
   rows_b (n_spikes m) (n_clu m) (n_templates m) (n_channels m) (ob_npy o) &&
@@ -84,8 +110,8 @@ Definition spec_rows (m : loaded) (L : string) (o : obsrec) : bool :=
   | _ => false end.
 
 (* units, judged against the source file, not against the model of convert *)
-Definition spec_units (i : inp) (L : string) (o : obsrec) : bool :=
-  match lookup "spike_times.npy" (i_src i), lookup (relabel L "spikes.samples.npy") (ob_npy o),
+Definition spec_units (i : inp) (src : files) (L : string) (o : obsrec) : bool :=
+  match lookup "spike_times.npy" src, lookup (relabel L "spikes.samples.npy") (ob_npy o),
         lookup (relabel L "spikes.times.npy") (ob_npy o) with
   | Some f, Some s, Some t =>
       arr_eqb s (read_full f) && dt_eqb (a_dt t) DF64 && zl_eqb (a_shape t) (a_shape s) &&
@@ -112,67 +138,81 @@ Definition spec_frame (i : inp) (o : obsrec) : bool :=
   frame_b (has "temp_wh.dat" (i_others i)) (i_has_raw i) (ob_changed o) (ob_deleted o)
           (names (ob_new o) ++ ob_new_other o).
 
-Definition spec_dtypes (i : inp) (L : string) (o : obsrec) : bool :=
-  match lookup "spike_clusters.npy" (i_src i), lookup (relabel L "spikes.clusters.npy") (ob_npy o),
-        lookup "spike_templates.npy" (i_src i), lookup (relabel L "spikes.templates.npy") (ob_npy o) with
+Definition spec_dtypes (src : files) (L : string) (o : obsrec) : bool :=
+  match lookup "spike_clusters.npy" src, lookup (relabel L "spikes.clusters.npy") (ob_npy o),
+        lookup "spike_templates.npy" src, lookup (relabel L "spikes.templates.npy") (ob_npy o) with
   | Some c0, Some c, Some t0, Some t =>
       dt_eqb (a_dt c) DU16 && dt_eqb (a_dt t) DU16 && tl_eqb (a_data c) (a_data c0) && tl_eqb (a_data t) (a_data t0)
   | _, _, _, _ => false
   end.
 
+(* label: has_label on every observed object file AND every observed object-file name is the labelled image of an
+   un-labelled name of the table (both evaluated on the observed names only) *)
+Definition spec_label (L : string) (o : obsrec) : bool :=
+  let nms := names (ob_npy o) ++ names (ob_txt o) in label_b L nms && label_names_b L nms.
+
+Definition nil_b {A} (l : list A) : bool := match l with [] => true | _ => false end.
+
+(* Code 3 is decided from the abstract input alone (file list, rate, label, "same directory", raw data), BEFORE the
+   observation is looked at: whatever the implementation does with an in-regime input is judged. *)
 Definition check (c : case) : list Z :=
   match cin c with InConvert i =>
   if negb (forallb (fun p => Nat.leb (n_matches p (i_src i)) 1) all_patterns) then [3] else
-  match load fdiv_tok fmul_tok round_half_even_tok (fun a => a) (i_src i) (i_rate i) (i_ncd i) with
-  | Err _ => [3]
-  | Ok m =>
-    if negb (in_regime i m) then [3] else
+  match norm_src i with
+  | None => [3]
+  | Some (src, m) =>
+    if negb (in_regime i src m) then [3] else
     let L := i_label i in
-    let ci o := mkci m (i_src i) (i_others i) (i_has_raw i) (i_same i) L in
-    if i_same i then
-      match convert dummy_oracle (ci tt), cobs c with
-      | CErr CRefused, ObsRefused true => []
-      | CErr CRefused, _ => [1; 26]
-      | _, _ => [3]
-      end
-    else
+    let ci := mkci m src (i_others i) (i_has_raw i) (i_same i) L in
+    match convert dummy_oracle ci with
+    | CErr CRefused =>
+        (* the target IS the source directory (under whatever spelling): refused, nothing touched *)
+        match cobs c with
+        | ObsRefused true => []
+        | ObsRefused false => [1; 26; 27]
+        | ObsNotRefused ch de nw => [1; 26] ++ flag 27 (nil_b ch && nil_b de && nil_b nw)
+        | _ => [1; 26]
+        end
+    | CErr _ => [3]                       (* the error exits of the model do not depend on the oracles *)
+    | COk _ =>
     match cobs c with
     | ObsRefused _ => [1; 20]
+    | ObsNotRefused _ _ _ => [1; 20]
     | ObsCrash => [1; 20]
     | ObsConverted o =>
       let orc := oracle_of L o in
-      match convert orc (ci tt) with
-      | CErr _ => [3]
+      match convert orc ci with
+      | CErr _ => [1]
       | COk r =>
         (* the directory convert() leaves: what it wrote, plus what the read-back load creates when params.py
            was copied (whitening_mat_inv.npy, C04_frame) *)
-        let reload := load fdiv_tok fmul_tok round_half_even_tok
-                           (fun _ => match lookup "whitening_mat_inv.npy" (ob_npy o) with Some a => a | None => mkarr DF64 [] [] end)
-                           (co_npy r) (i_rate i) (i_ncd i) in
+        let reload := loadc i (fun _ => match lookup "whitening_mat_inv.npy" (ob_npy o) with Some a => a | None => mkarr DF64 [] [] end)
+                            (co_npy r) in
         match reload with
         | Err _ => [1; 25]
         | Ok m2 =>
           let exp_npy := co_npy r ++ (if has "params.py" (co_txt r) then l_created m2 else []) in
           let g_out := dir_eqb arr_eqb exp_npy (ob_npy o) && dir_eqb text_eqb (co_txt r) (ob_txt o) &&
                        forallb (fun kv => arr_wf (snd kv)) (ob_npy o) in
-          let g_src := dir_eqb arr_eqb (co_src r) (i_src i ++ ob_new o) &&
+          let g_src := dir_eqb arr_eqb (co_src r) (src ++ ob_new o) &&
                        dir_eqb Z.eqb (co_others r)
                                (filter (fun kv => negb (str_in (fst kv) (ob_deleted o))) (i_others i)) &&
-                       match ob_new_other o with [] => true | _ => false end in
+                       nil_b (ob_new_other o) in
           let g_rl := arr_eqb (r_samples (ob_rl o)) (l_samples m2) && arr_eqb (r_times (ob_rl o)) (l_times m2) &&
                       arr_eqb (r_sclusters (ob_rl o)) (l_sclusters m2) && arr_eqb (r_stemplates (ob_rl o)) (l_stemplates m2) &&
                       arr_eqb (r_cmap (ob_rl o)) (l_cmap m2) && arr_eqb (r_pos (ob_rl o)) (l_pos m2) in
           let s21 := spec_rows m L o in
-          let s22 := spec_units i L o in
-          let s23 := label_b L (names (ob_npy o) ++ names (ob_txt o)) in
+          let s22 := spec_units i src L o in
+          let s23 := spec_label L o in
           let s24 := spec_uuids m L o in
           let s25 := spec_roundtrip m o in
           let s27 := spec_frame i o in
-          let s28 := spec_dtypes i L o in
+          let s28 := spec_dtypes src L o in
           flag 1 (g_out && g_src && g_rl) ++ flag 21 s21 ++ flag 22 s22 ++ flag 23 s23 ++ flag 24 s24 ++
           flag 25 s25 ++ flag 27 s27 ++ flag 28 s28
         end
       end
+    end
     end
   end end.
 
